@@ -23,7 +23,8 @@
               wg.Done()                                    WExited
 
      main:    go worker x w ; for files { fileChan <- f } ; close(fileChan) ;
-              go status-updater ; go closer ; for g := range resultChan { merge }
+              go status-updater ; go closer ; for g := range resultChan { merge } ;
+              <-statusDone         (closed by the status updater when it returns)
 
      status:  for { select { case _, ok := <-statusChan:   if !ok {return}
                              case _, ok := <-progressChan: if !ok {return} } }
@@ -44,7 +45,8 @@ Inductive mstate : Type :=
 | StartStatus                 (* about to [go func() { status updater }] *)
 | StartCloser                 (* about to [go func() { wg.Wait(); close... }] *)
 | Collect                     (* in [for localGraph := range resultChan] *)
-| Done.                       (* the range loop has terminated *)
+| Join                        (* the range loop has terminated; at [<-statusDone] *)
+| Done.                       (* Initialize returns *)
 
 (* program counter of one worker goroutine; [X f] = about to perform action X
    on file f *)
@@ -135,7 +137,10 @@ Section Model.
   | step_m_done : forall q fc ws a p st co mg sk,
       rclosed_c co = true ->
       step (St Collect q fc ws a p [] st co mg sk)
-           (St Done q fc ws a p [] st co mg sk)
+           (St Join q fc ws a p [] st co mg sk)
+  | step_m_join : forall q fc ws a p r co mg sk,
+      step (St Join q fc ws a p r GExited co mg sk)
+           (St Done q fc ws a p r GExited co mg sk)
   (* ---------------- worker (the one between l1 and l2) ---------------- *)
   | step_w_recv : forall f m q fc l1 l2 a p r st co mg sk,
       step (St m (f :: q) fc (l1 ++ Recv :: l2) a p r st co mg sk)
@@ -234,8 +239,9 @@ Section Model.
     | Collect =>
         match r with
         | f :: r' => [St Collect q fc ws a p r' st co (mg ++ [f]) sk]
-        | [] => if rclosed_c co then [St Done q fc ws a p [] st co mg sk] else []
+        | [] => if rclosed_c co then [St Join q fc ws a p [] st co mg sk] else []
         end
+    | Join => match st with GExited => [St Done q fc ws a p r GExited co mg sk] | _ => [] end
     | Done => []
     end.
 
@@ -336,11 +342,12 @@ Section Model.
      main's weight pays for the largest possible weight of the new component *)
   Definition mweight (m : mstate) : nat :=
     match m with
-    | Sending rest => 9 + (S fweight) * length rest
-    | CloseFiles => 8
-    | StartStatus => 7
-    | StartCloser => 5
-    | Collect => 1
+    | Sending rest => 10 + (S fweight) * length rest
+    | CloseFiles => 9
+    | StartStatus => 8
+    | StartCloser => 6
+    | Collect => 2
+    | Join => 1
     | Done => 0
     end.
 
@@ -398,11 +405,11 @@ Definition past_close (m : mstate) : bool :=
 
 (* main has executed [go status-updater] *)
 Definition past_status (m : mstate) : bool :=
-  match m with StartCloser | Collect | Done => true | _ => false end.
+  match m with StartCloser | Collect | Join | Done => true | _ => false end.
 
 (* main has executed [go closer] *)
 Definition past_closer (m : mstate) : bool :=
-  match m with Collect | Done => true | _ => false end.
+  match m with Collect | Join | Done => true | _ => false end.
 
 (* reachable states of the protocol for a given list of files, w workers *)
 Definition reachable (files : list file) (w : nat) (readable : file -> bool)
@@ -473,9 +480,14 @@ Inductive buffered (w : nat) : list file -> list file -> list file -> Prop :=
       [defer parser.Close()] / [defer tree.Close()] run after [wg.Done()];
       they are local and not modelled.
 
-   6. [Initialize] is not [func main]: after it returns ([Done]) the status
-      updater and the closer may still take steps; these are part of the
-      model (a terminal state has all goroutines finished).
+   6. [Initialize] is not [func main]: after it returns ([Done]) the closer
+      may still take steps (its last [close] calls); these are part of the
+      model (a terminal state has all goroutines finished).  The status
+      updater has returned by then: main waits for it in [Join]
+      ([<-statusDone], a channel closed by a deferred call of the updater;
+      modelled as the guard [status = GExited]).  Before the repair
+      "the progress display stops before the scan returns" there was no such
+      wait and the updater kept writing to the terminal after [Done].
 
    7. The body of the status updater after the select, the merge loop body,
       logging and timing are local computations, fused with the receive.
